@@ -23,6 +23,10 @@ CHECKS = {
              "output; format dialects observed through identity encoders.", "json.dumps replaced by its acceptance condition.", "6 C02"),
     "C03": c("decode(d) vs independent reference decoder + exact-class conformance for arbitrary JSON-like input at the root / "
              "field position.", "Scalars of arbitrary inputs come from boundary pools chosen by solver-controlled selectors.", "6 C03"),
+    "C04": c("Format codecs with the C transport replaced by its contract (identity): round trip and document-vs-basic-form "
+             "for all values; wiring of every format method incl. orjson_options forwarding.",
+             "The format libraries themselves are C code and OUTSIDE; they run on boundary values and on every replayed model "
+             "as stub validation only.", "6 C04"),
     "C05": c("Outcome of from_dict on corrupted inputs (non-dicts, one or two arbitrary fields, missing keys, extra keys) equals the "
              "first-failing-field model; input unchanged.", ref="6 C05"),
     "C07": c("Absent keys take the default / a fresh factory result, present keys win, non-constructor members are never read, for "
@@ -36,10 +40,30 @@ CHECKS = {
     "C06": c("The real jsonschema Draft 2020-12 validator runs symbolically on jsonify(encode(v)) against the schema built by the real "
              "build_json_schema for both dialects; required = exactly the fields without defaults.",
              "jsonify stub validated against json.loads(json.dumps()) on replays.", "6 C06"),
+    "C12": c("Fresh class hierarchy per path; solver-chosen event histories (define class / decode tag / create decoder) and an "
+             "inductive step from an arbitrary invariant-satisfying cached registry, for Config, Annotated and codec wiring.",
+             "Classes cannot be symbolic: histories are realised selectors, the payload of the last decode is symbolic.", "6 C12"),
+    "C13": c("Isolation of dialect caches under solver-chosen earlier uses vs a freshly built default-dialect class; Dialect.merge "
+             "option lattice; uniformity of every format codec with BasicEncoder for symbolic values.", ref="6 C13"),
+    "C14": c("Lazy / postponed families vs a fresh eager twin under solver-chosen operation histories; last operation on symbolic "
+             "data.", "Thread schedules are OUTSIDE the claim (CrossHair is single-threaded).", "6 C14"),
+    "C15": c("All entry points (mixin, codec, nested in List/Dict/Tuple/Optional, dataclass field) agree for all values; "
+             "interference operations between evaluations.", "One-shot encode()/decode() compared on concrete representatives only.",
+             "6 C15"),
+    "C16": c("z3 string encoding of Python short-string-literal lexing applied to the splice templates re-extracted from the "
+             "generated source on every run; per-character escape-unit lemma for repr templates; models and per-class probes "
+             "replayed on the real builder.", "Lexing MODEL, not CPython's C tokenizer; homomorphism assumption validated by probes.",
+             "6 C16", technique="direct z3 string/regex encoding of the splice-and-lex kernel, bounded; replay on real builder"),
+    "C17": c("Arbitrary inputs over a family of awkward classes (same-named locals, functional/dynamic classes, non-importable "
+             "names) so that error paths run: no NameError/own AttributeError, class identity; z3 search for sanitised-name "
+             "collisions; static closure cross-check.", ref="6 C17"),
     "C18": c("Identity-graph intersection of value and encoding equals the sharing predicted from the type hints and the "
              "no_copy_collections set; object and decode input unchanged.", ref="6 C18"),
     "C19": c("Recorded hook trace equals the pre/post-order traversal for all lengths / union members / None-ness, through mixin, "
              "codec and format mixins (identity transport), with context forwarding.", ref="6 C19"),
+    "C20": c("Configuration cube and build sequences realised from solver selectors (finite cube, enumerated exhaustively); "
+             "metaschema validity, closed refs, model round trip; JSONSchema model round trip on symbolic documents.",
+             "Types/configurations cannot be symbolic: the solver enumerates the cube; stated in the evidence.", "6 C20"),
     "C11": c("Union/Optional/Literal decode equals REF_UNION_DECODE for arbitrary input, encode equals the member's encoding.",
              "Union-order reading documented in DESIGN.md.", "6 C11"),
 }
